@@ -255,6 +255,7 @@ type UnitResult struct {
 	LoopsAnnot int
 	Obls       []*Obligation
 	Unbound    []string // clauses that did not bind to the code (skipped)
+	Incomplete []string // modelling gaps: undischarged obligations of the unit are undecided
 	Notes      []string
 	Trusted    []string
 	Err        string // binding/unsupported error: unit undecided
@@ -326,6 +327,7 @@ func (eng *Engine) VerifyFunc(key string) (res *UnitResult) {
 	}
 	res.vc = vc
 	res.Unbound = vc.unbound
+	res.Incomplete = vc.incomplete
 	res.Obls = vc.obls
 	res.Notes = vc.notes
 	for t := range vc.trusted {
